@@ -64,6 +64,21 @@ struct R : tulz::Runnable {
         ev("RunEnd", c.ok() ? 1 : 0);
     }
     ~R() { ev("Destroy"); }   // no "override": see pool_harness.cpp
+    // a one-slot pool: the Runnable of the next round lives at the address of the previous, already destroyed one
+    // (identity of a Runnable is not its address)
+    alignas(16) static inline unsigned char slot[64];
+    static inline bool slot_used = false;
+    static void *operator new(size_t n) {
+        if (!slot_used && n <= sizeof slot) {
+            slot_used = true;
+            return slot;
+        }
+        return ::operator new(n);
+    }
+    static void operator delete(void *p) {
+        if (p == slot) slot_used = false;
+        else ::operator delete(p);
+    }
 };
 
 __attribute__((noinline)) void scribble(void *trap) {
